@@ -17,7 +17,7 @@ RULE = ("matrices with m <= n, full row rank, condition number <= 1e4 (float64) 
         "Aligned-MTL: one-hot preference vectors give mutually orthogonal vectors of length sigma_min(J) and A_u = sum u_i r_i; zero "
         "matrices of all shapes give the zero vector; non-trivial = m >= 2 and row norms differ by more than 10 %; distinct = case sha1")
 ASSUMPTIONS = ["defining equations checked with tau = 1e-8 (float64) / 5e-3 (float32) in the natural unit of each equation"]
-N = {"quick": 5000, "thorough": 250000}
+N = {"quick": 5000, "thorough": 800000}
 TAU = {"float64": 1e-8, "float32": 5e-3}
 
 
